@@ -947,6 +947,12 @@ func (a *anchors) pairwise(r *report.Report) {
 			}
 			ap, isAppend := isBuiltinCall(asInstr(st.Val), "append")
 			if !isAppend {
+				// removal in place: copy(list[i:], list[i+1:]); list = list[:len(list)-1]
+				if idx, ok := a.copyDownRemoval(f, m, st); ok {
+					r.OK(RuleCurrent, okey, pos, "removal is copy(list[i:], list[i+1:]) followed by list[:len(list)-1] with i = "+Describe(idx)+": the remaining streams keep their order")
+					a.pairShrink(r, f, st, idx, mapSites[f], pkey)
+					continue
+				}
 				r.Bad(RuleCurrent, okey, pos, "the stream list is assigned "+Describe(st.Val)+": neither a tail append nor the two-slice removal — insertion order is not evidently preserved")
 				continue
 			}
@@ -985,6 +991,52 @@ func (a *anchors) pairwise(r *report.Report) {
 			a.pairShrink(r, f, st, idx, mapSites[f], pkey)
 		}
 	}
+}
+
+// copyDownRemoval: st stores L[:len(L)-1] where L is one load of m.pmt.ElementaryStreams, and a call copy(L[i:], L[i+1:]) on that
+// same L dominates the store: element i is overwritten by its successors, order kept, the last slot dropped. It returns i.
+func (a *anchors) copyDownRemoval(f *ssa.Function, m ssa.Value, st *ssa.Store) (ssa.Value, bool) {
+	sl, ok := st.Val.(*ssa.Slice)
+	if !ok || sl.Low != nil || sl.High == nil || sl.Max != nil || !isLoadOf(sl.X, m, a.fPmt, a.fPMTStreams) {
+		return nil, false
+	}
+	L := sl.X
+	sub, ok := sl.High.(*ssa.BinOp)
+	if !ok || sub.Op != token.SUB {
+		return nil, false
+	}
+	if k, isC := ssau.ConstInt(sub.Y); !isC || k != 1 {
+		return nil, false
+	}
+	ln, isLen := isBuiltinCall(asInstr(sub.X), "len")
+	if !isLen || len(ln.Call.Args) != 1 || ln.Call.Args[0] != L {
+		return nil, false
+	}
+	for _, b := range f.Blocks {
+		for _, in := range b.Instrs {
+			cp, isCopy := isBuiltinCall(in, "copy")
+			if !isCopy || len(cp.Call.Args) != 2 {
+				continue
+			}
+			d, ok1 := cp.Call.Args[0].(*ssa.Slice)
+			s, ok2 := cp.Call.Args[1].(*ssa.Slice)
+			if !ok1 || !ok2 || d.X != L || s.X != L || d.Low == nil || s.Low == nil || d.High != nil || s.High != nil || d.Max != nil || s.Max != nil {
+				continue
+			}
+			plus, okPlus := s.Low.(*ssa.BinOp)
+			if !okPlus || plus.Op != token.ADD || plus.X != d.Low {
+				continue
+			}
+			if k, isC := ssau.ConstInt(plus.Y); !isC || k != 1 {
+				continue
+			}
+			if !(cp.Block() == st.Block() && ssau.IndexOf(cp) < ssau.IndexOf(st)) && !(cp.Block() != st.Block() && cp.Block().Dominates(st.Block())) {
+				continue
+			}
+			return d.Low, true
+		}
+	}
+	return nil, false
 }
 
 func asInstr(v ssa.Value) ssa.Instruction {
